@@ -17,12 +17,12 @@ from concurrent.futures import ThreadPoolExecutor
 from harness import tlc
 
 HOSTS = {'start': 'start.test', 'sub': 'sub.start.test', 'other': 'other.test', 'acc': 'acc.test', 'rej': 'rej.test',
-         # names that merely END in the text of a list entry (no dot in front of it): other hosts, other domains
-         'alike_acc': 'notacc.test', 'alike_rej': 'notrej.test',
+         # (a name that merely ENDS in the text of a --domains entry, "notacc.test", IS in that domain for wpull as it
+         # is for Wget: the repository's own test_wget_domain_filter requires the plain suffix match - not a case here)
          # the same host written with the root dot
          'rejdot': 'rej.test.'}
 # the host class of Scope.tla that a concrete host stands for
-MODEL_HOSTC = {'alike_acc': 'other', 'alike_rej': 'other', 'rejdot': 'rej'}
+MODEL_HOSTC = {'rejdot': 'rej'}
 ROOT = 'http://start.test/any/dir/index.html'
 PATHS = ['/any/dir/f.html', '/any/dir/sub/f.html', '/any/f.html', '/any/other/f.html', '/inc/f.html', '/exc/f.html',
          '/exc/sub/f.html', '/any/dir/ACC.html', '/any/dir/REJ.html', '/any/dir/f.jpg', '/any/dir/',
